@@ -363,6 +363,13 @@ func c10(ctx *Ctx) (*Outcome, error) {
 	for i := 0; i < 10; i++ {
 		cases = append(cases, spellingChainCase(i))
 	}
+	for i := 0; i < ctx.N(8, 24); i++ {
+		// a definition of one name in two files of a run, equal up to its defaults: every referrer decodes with the
+		// defaults of its own file's definition
+		if c := sameNameTwinCase(ctx, i, sg.NewRng(ctx.Seed, fmt.Sprintf("C10-samename-%d", i))); c != nil {
+			cases = append(cases, c)
+		}
+	}
 	for i := 0; i < ctx.N(14, 28); i++ {
 		cases = append(cases, sameStemCase(i))
 	}
@@ -398,7 +405,7 @@ func c10(ctx *Ctx) (*Outcome, error) {
 		cases = append(cases, &sem.Case{Root: root, Sig: "witness:root-self-ref-untyped", NoAuto: true, Witness: "root-self-ref-untyped", Docs: []docgen.Doc{{V: doc, Class: "pinned", Label: "witness"}}})
 	}
 	cfg := &sem.Config{Prop: "C10", Tier: ctx.Tier, Seed: ctx.Seed, Cases: cases, Classes: docgen.Classes{"type": true, "required": true, "bound": true, "string": true, "items": true, "enum": true, "delopt": true}, Valid: 4, PerSite: 2, MaxDocs: 70,
-		Env: ctx.Env, Values: true}
+		Env: ctx.Env, Values: true, Defaults: true}
 	// a reference form that the generator refuses while it accepts the inlined twin is not transparent either
 	var gviol []Viol
 	refusedRef, cycleRuns := 0, 0
